@@ -109,7 +109,9 @@ def gen_client(rng, j, libs):
             # the module's first form imports hy itself under some name (the bytecode still has to bind `hy` for the
             # run-time require calls)
             "hy_first": rng.choice([None, None, None, "(import hy :as hylang)", "(import hy.models :as HM)", "(import hy)",
-                                    "(import hy.models)", "(import hy.models [Symbol])"])}
+                                    "(import hy.models)", "(import hy.models [Symbol])"]),
+            # ... or the module imports hy explicitly somewhere BELOW its requires
+            "hy_later": rng.choice([None, None, None, "(import hy)", "(import hy :as hy2)", "(import hy.macros)"])}
 
 
 def generate(rng, tier):
@@ -462,6 +464,8 @@ def client_text(tag, desc, j, cl):
             out.append(f"(require {lname}\n         {lname}{rd})")
         else:
             out.append(f"(require {lname}{spec}{rd})")
+    if cl.get("hy_later"):
+        out.append(cl["hy_later"])
     k = 0
     cl["_uses"] = list(client_macros(tag, desc, cl))
     cl["_ruses"] = list(client_readers(tag, desc, cl))
@@ -967,6 +971,8 @@ def shrink(desc):
                 yield dict(desc, clients=desc["clients"][:j] + [dict(cl, requires=reqs[:r] + [nr] + reqs[r + 1:])] + desc["clients"][j + 1:])
         if cl.get("hy_first"):
             yield dict(desc, clients=desc["clients"][:j] + [dict(cl, hy_first=None)] + desc["clients"][j + 1:])
+        if cl.get("hy_later"):
+            yield dict(desc, clients=desc["clients"][:j] + [dict(cl, hy_later=None)] + desc["clients"][j + 1:])
         for key in ("own_macro", "local_require", "in_fn"):
             if cl[key]:
                 yield dict(desc, clients=desc["clients"][:j] + [dict(cl, **{key: False})] + desc["clients"][j + 1:])
